@@ -754,7 +754,8 @@ class ExcelInPython:
         # Ищем значение значение ячейки среди установленных в ручную через set_cells, если не находим, считаем результат
         # с помощью найденного выше метода, если же не найден и метод, возвращаем "пустую ячейку"
         if cell_uid in self._arguments:
-            return self._arguments[cell_uid]
+            # ячейка, которой задано значение None, - пустая ячейка
+            return self.EmptyCell() if self._arguments[cell_uid] is None else self._arguments[cell_uid]
         return method(self) if method else self.EmptyCell()
 
     def exec_function_in(self, cell_uid: str):
